@@ -67,14 +67,4 @@ theorem xml_accepted_as_image :
     handleImg (some "http://a.test/x.png") (some "ALT") (some (.svg 21)) = [.replaced] ∧
     handleImg none (some "ALT") none = [.altText "ALT"] := ⟨rfl, by decide, by decide⟩
 
-/-- finding `font-data-then-local-typeerror`.  `src: url(f.ttf), local(Foo)` where `f.ttf` is
-fetched successfully but is not a usable font: the loop variable `string` (the `FcChar8 **` used for
-`local()` lookups) has been overwritten by `string = 'string' in result`, and the `local()` entry
-raises `TypeError`.  Without the first entry the rule loads quietly (here: warns). -/
-theorem font_data_then_local_raises :
-    let fetcher : Fetcher := fun _ => .resp ⟨true, none, none, none, garbage⟩
-    (fontLoop fetcher false [.external (some "http://a.test/f.ttf"), .«local» "Foo" true false "file:///none"] {}).err =
-      some ⟨"TypeError", "string"⟩ ∧
-    (fontLoop fetcher false [.«local» "Foo" true false "file:///none"] {}).err = none := by decide
-
 end Wp.Witness.C20
